@@ -377,6 +377,8 @@ def run(ck):
     ck.need("session_blocks", 200)
     ck.need("session_blocks_over_script_namespace", 40)
     ck.need("lambda_in_caller_local_judgements", 20)
+    ck.need("function_behind_plain_closure_decorator_judgements", 20)
+    ck.need("self_referential_nested_function_judgements", 20)
     ck.need("files_stdlib", 1000, "fewer than 1000 files under the stdlib root")
     ck.need("files_site-packages", 1000, "fewer than 1000 files under site-packages")
     ck.need("loaded_functions", 1000)
